@@ -343,3 +343,24 @@ rul!(c11_rules_1752, [1, 7, 5, 2]); // X, into_owned, SHA, Y (after integrity)
 rul!(c11_rules_4675, [4, 6, 7, 5]); // MI, FP, into_owned, SHA (refused after FP)
 rul!(c11_rules_2127, [2, 1, 2, 7]); // Y, X, Y (dup, not the most recent), into_owned
 rul!(c11_rules_5666, [5, 6, 6, 6]); // SHA, FP, FP (dup), FP
+
+/// the duplicate rule for an attribute that is NOT the most recently added one: X, Y, then X again
+/// (typed or raw makes no difference to the guard).  Only the refusal itself is asserted -- the
+/// full step (byte_len / queries before and after) with three operations needs > 20 GB.
+#[kani::proof]
+#[kani::unwind(6)]
+fn c11_dup_of_earlier_attribute() {
+    let (c, m, mt) = any_mtype();
+    let t: u128 = kani::any();
+    let vx: [u8; 2] = kani::any();
+    let vy: [u8; 3] = kani::any();
+    let mut b = Message::builder(mt, t.into());
+    let r1 = b.add_raw_attribute(RawAttribute::new(AttributeType::new(0x7f01), &vx)).is_err();
+    let r2 = b.add_raw_attribute(RawAttribute::new(AttributeType::new(0x7f02), &vy)).is_err();
+    let r3 = b.add_raw_attribute(RawAttribute::new(AttributeType::new(0x7f01), &vx)).is_err();
+    assert!(!r1 && !r2, "C11:operation-refused-or-accepted-against-the-ordering-rules");
+    assert!(r3, "C11:operation-refused-or-accepted-against-the-ordering-rules");
+    assert!(b.has_attribute(AttributeType::new(0x7f01)) && b.has_attribute(AttributeType::new(0x7f02)), "C11:builder-query-disagrees-with-operations");
+    kani::cover!(c == 1);
+    std::mem::forget(b);
+}
